@@ -36,6 +36,10 @@ class Cfg:
         self.assumptions = kw["assumptions"]
         self.variants = kw.get("variants", [dict()])  # e.g. build-tag variants; each dict(tags=, env=, overlay=)
         self.timeout = kw.get("timeout", 3000)
+        self.design_ref = kw.get("design_ref", "")
+        self.technique = kw.get("technique", "")
+        self.level_text = kw.get("level_text", "")
+        self.level_note = kw.get("level_note", "")
 
 
 def read_lines(p):
@@ -280,6 +284,19 @@ def _run_check(cfg, tier, seed, work, t0):
     if ok:
         rows, araw, arc = core.audit(prop)
     tokens = core.forbidden_token_scan()
+    leanchecker = None
+    if ok and tier == "thorough":
+        # independent re-check of the compiled property modules by leanchecker
+        import subprocess
+        lk = core._lake_lock()
+        try:
+            pc = subprocess.run(["lake", "env", "leanchecker"] + cfg.lean_targets, cwd=core.LEAN, stdout=subprocess.PIPE,
+                                stderr=subprocess.STDOUT, text=True, timeout=3000)
+        finally:
+            lk.close()
+        leanchecker = dict(rc=pc.returncode, tail=pc.stdout[-300:])
+        if pc.returncode != 0:
+            lean_broken = "leanchecker rejected the compiled modules:\n" + pc.stdout[-2000:]
     obligations = len(rows) if rows else len(
         __import__("re").findall(r"^#print axioms", open(os.path.join(core.LEAN, "Audit", prop + ".lean")).read(), __import__("re").M))
     discharged = sum(1 for r in rows if r["ok"]) if not tokens else 0
@@ -414,6 +431,7 @@ def _run_check(cfg, tier, seed, work, t0):
                                 harness_errors=len(oc.errors), white_box=runner.wb),
             known_findings_seen=sorted(printed_known),
             variants=len(cfg.variants),
+            leanchecker=leanchecker,
         ),
         assumptions=cfg.assumptions,
     )
